@@ -120,10 +120,19 @@ def run(p, report, tier):
                     for n in ast.walk(fn_) if isinstance(n, ast.Return))
         other = [n for n in ast.walk(fn_) if isinstance(n, ast.Call) and c01.callname(n) in ("is_labeled", "is_unlabeled")
                  and c01.callname(n) != pred]
-        good = okc and bool(aw) and retok and not other
+        # the enumeration itself is the result: np.argwhere lists the True entries in row-major order with each
+        # row of the result being ONE (row, column) pair; wrapping it in an order-changing call (np.sort(..., axis=0)
+        # sorts the two columns independently and tears the pairs apart) is not an enumeration any more
+        parents = {}
+        for n in ast.walk(fn_):
+            for ch in ast.iter_child_nodes(n):
+                parents[ch] = n
+        reord = [a for a in aw if isinstance(parents.get(a), ast.Call) and (c01.callname(parents[a]) or "").split(".")[-1] in (
+            "sort", "sorted", "unique", "flip", "flipud", "fliplr", "roll", "permutation", "shuffle")]
+        good = okc and bool(aw) and retok and not other and not reord
         report.add("R16.1", f.qual, f"np.argwhere({pred}(y, missing_label))", f"{f.file}:{f.node.lineno}", good,
                    detail="index enumeration of the predicate with both arguments forwarded" if good else
-                   f"forwarded={okc} argwhere={bool(aw)} returned={retok} other_predicate={bool(other)}")
+                   f"forwarded={okc} argwhere={bool(aw)} returned={retok} other_predicate={bool(other)} reordered={bool(reord)}")
     # ---- R16.2
     tree = FuncTree(iun)
     rets = [n for n in ast.walk(iun) if isinstance(n, ast.Return)]
@@ -222,6 +231,24 @@ def run(p, report, tier):
         da = DefiniteAssignment(_it(fn.node)).run()
         report.add("R1.7", fn.qual, "all locals bound before use", f"{fn.file}:{fn.node.lineno}", not da.reports,
                    detail="; ".join(f"{k} unbound" for k in da.reports))
+    # ---- R16.8 (round 5): the encoder never writes into what it is given
+    report.rule("R16.8", "ExtLabelEncoder.fit / transform / inverse_transform never write into the array they are given "
+                "(`astype(..., copy=False)` / `np.asarray` return the caller's array itself when no conversion is needed): "
+                "decoding must not turn the caller's codes into labels", floor=3)
+    from ..absint import Interp
+    from . import c05 as _c05
+    encc = p.get_class("ExtLabelEncoder")
+    for mn in ("fit", "transform", "inverse_transform", "fit_transform"):
+        fm = encc.methods.get(mn) if encc else None
+        if fm is None:
+            continue
+        it = Interp(p)
+        it.run_entity(encc, fm)
+        before = len(report.obligations)
+        _c05.check_entity(p, report, encc, fm, it, r_param=None, r_arr="R16.8", r_est=None)
+        if len(report.obligations) == before:
+            report.add("R16.8", fm.qual, "argument arrays are read-only", f"{fm.file}:{fm.node.lineno}", True,
+                       detail="no reachable in-place write through an alias", nontrivial=False)
     # ---- R16.6 / R16.7 (round 4)
     report.rule("R16.6", "the encoder validates label arrays without narrowing what it accepts: every check_array on the "
                 "labels in fit / transform / inverse_transform passes ensure_min_samples=0 (empty arrays round-trip), "
